@@ -172,6 +172,32 @@ def snapshot(**roots):
     return {k: g.value(g.add(v, k)) for k, v in roots.items()}
 
 
+def param_settings(pv):
+    return {"key": pv.key, "values": pv.values, "enabled": pv.enabled, "boundaries": pv.boundaries,
+            "logarithmic": pv.logarithmic}
+
+
+def mode_settings(mode):
+    """the settings of the running-mode object the user passed (Observation / Calibration): its readout, its parameter
+    declarations (and table), its outputs settings, its own options — not internal caches"""
+    out = {"readout": getattr(mode, "readout", None), "outputs": getattr(mode, "outputs", None),
+           "pipeline_seed": getattr(mode, "pipeline_seed", None)}
+    pm = getattr(mode, "parameter_mode", None)
+    if pm is not None:
+        out["mode_class"] = type(pm).__name__
+        out["parameters"] = [param_settings(p) for p in pm.parameters]
+        out["custom_data"] = getattr(pm, "custom_data", None)
+        out["with_dask"] = mode.with_dask
+    else:  # Calibration
+        out["parameters"] = [param_settings(p) for p in getattr(mode, "parameters", [])]
+        out["result_input_arguments"] = [param_settings(p) for p in (getattr(mode, "result_input_arguments", None) or [])]
+        out["algorithm"] = {k: v for k, v in vars(mode.algorithm).items()} if hasattr(mode, "algorithm") else None
+        for k in ("num_islands", "num_evolutions", "num_best_decisions", "topology", "pygmo_seed", "result_type",
+                  "result_fit_range", "target_fit_range", "weights", "target_data_path"):
+            out[k] = getattr(mode, k, None)
+    return out
+
+
 def shared_nodes(orig, new):
     """(graph, addr orig, addr copy, python-side shared addresses with descriptions)"""
     g = Graph()
@@ -233,7 +259,15 @@ def make_copies(case):
     from pyxel.pipelines import Processor
 
     det, pipe, _ = build(case)
-    proc = Processor(detector=det, pipeline=pipe)
+    tmp = tempfile.mkdtemp(prefix="verif-c06-obs-")
+    try:
+        from pyxel.exposure import Readout
+
+        obs = c05.build_observation(case, tmp, with_dask=False)
+        obs.readout = Readout(times=[1.0, 2.0, 3.0], non_destructive=True)
+    finally:
+        shutil.rmtree(tmp, ignore_errors=True)
+    proc = Processor(detector=det, pipeline=pipe, observation_mode=obs)  # what run_mode builds
     params = first_assignment(case) if case["mode"] != "custom" else {}
     params = {k: (list(v) if isinstance(v, (list, tuple)) else v) for k, v in params.items()}
     out = [("create_new_processor", proc, create_new_processor(processor=proc, parameter_dict=dict(params))),
@@ -256,6 +290,13 @@ def real_writes(new, case):
     env.temperature = 111.0
     if "_temperature" in vars(env):
         ws.append(["rebind", ["detector", "_environment", "_temperature"], ["leaf", atomic_text(111.0)]])
+    if getattr(new, "observation", None) is not None:
+        # what `Processor.set("observation.readout.…", value)` does for a swept readout setting
+        new.observation.readout.non_destructive = not new.observation.readout.non_destructive
+        new.observation.readout.times = [7.0, 9.0]
+        if "_non_destructive" in vars(new.observation.readout):
+            ws.append(["rebind", ["observation", "readout", "_non_destructive"],
+                       ["leaf", atomic_text(new.observation.readout.non_destructive)]])
     for g in new.pipeline.model_group_names:
         grp = getattr(new.pipeline, g)
         if grp:
@@ -338,7 +379,7 @@ def standalone(case, assignment, n_extra):
     return [c05.num(x) for x in data[:c05.nslots(case) + n_extra]]
 
 
-def run_observation(case, det, pipe, n_extra, parallel):
+def run_observation(case, det, pipe, n_extra, parallel, obs=None):
     import dask
     import obsprobes
     import pyxel
@@ -348,7 +389,7 @@ def run_observation(case, det, pipe, n_extra, parallel):
     try:
         os.chdir(tmp)
         obsprobes.reset()
-        obs = c05.build_observation(case, tmp, with_dask=parallel)
+        obs = obs if obs is not None else c05.build_observation(case, tmp, with_dask=parallel)
         try:
             with dask.config.set(scheduler="threads" if parallel else "synchronous", num_workers=4):
                 dt = pyxel.run_mode(mode=obs, detector=det, pipeline=pipe, with_inherited_coords=True)
@@ -380,17 +421,46 @@ def variant(case, rng, kind):
 
 def check_runs(ck, case, rng, parallel):
     det, pipe, n_extra = build(case)
+    rc = c05.reconfigure(case, rng)
+    rc["fields"] = case["fields"]  # same recorder: the configuration differs, not the pipeline's shape
+    det2, pipe2, _ = build(rc)
     before = snapshot(detector=det, pipeline=pipe)
-    sequence = [("first", case), ("again-permuted", variant(case, rng, "permuted")), ("again-same", case)]
-    for label, c in sequence:
-        res, obs = run_observation(c, det, pipe, n_extra, parallel)
+    before2 = snapshot(detector=det2, pipeline=pipe2)
+    obs0 = None
+    mode_before = None
+    # (label, case, objects, reuse the first Observation object?)
+    sequence = [("first", case, (det, pipe), False), ("again-same", case, (det, pipe), True),
+                ("reconfigured-same-observation", rc, (det2, pipe2), True),
+                ("again-permuted", variant(case, rng, "permuted"), (det, pipe), False),
+                ("first-objects-again-same-observation", case, (det, pipe), True)]
+    tag = "dask" if parallel else "seq"
+    for label, c, (d, p), reuse in sequence:
+        res, obs = run_observation(c, d, p, n_extra, parallel, obs=obs0 if reuse else None)
+        if obs0 is None:
+            obs0 = obs
+        if reuse or label == "first":
+            if mode_before is None:
+                # taken after the first call returned would miss its effect: rebuild an identical, unused Observation
+                tmpd = tempfile.mkdtemp(prefix="verif-c06-obs-")
+                try:
+                    mode_before = snapshot(**mode_settings(c05.build_observation(case, tmpd, with_dask=parallel)))
+                finally:
+                    shutil.rmtree(tmpd, ignore_errors=True)
+            mode_after = snapshot(**mode_settings(obs0))
+            if mode_after != mode_before:
+                changed = [k for k in mode_before if mode_before[k] != mode_after.get(k)]
+                ck.violation(f"C06:mode-object-changed:{tag}",
+                             f"after run_mode ({label}) the Observation the user passed no longer has the settings {changed} "
+                             "it had before the call", {"case": c, "parallel": parallel, "step": label, "changed": changed})
+                return
         ck.case({"case": c, "parallel": parallel, "step": label}, nontrivial="error" not in res and len(res["entries"]) >= 2,
                 stream="runs")
-        ck.count(f"runs:{'dask' if parallel else 'seq'}:{label}")
+        ck.count(f"runs:{tag}:{label}")
         after = snapshot(detector=det, pipeline=pipe)
-        if after != before:
-            changed = [k for k in before if before[k] != after[k]]
-            ck.violation(f"C06:caller-objects-changed:{'dask' if parallel else 'seq'}",
+        after2 = snapshot(detector=det2, pipeline=pipe2)
+        if after != before or after2 != before2:
+            changed = [k for k in before if before[k] != after[k]] + [k + "(2nd configuration)" for k in before2 if before2[k] != after2[k]]
+            ck.violation(f"C06:caller-objects-changed:{tag}",
                          f"after run_mode ({label}) the caller's {changed} no longer have the content they had before the call",
                          {"case": c, "parallel": parallel, "step": label, "changed": changed})
             return
@@ -402,11 +472,65 @@ def check_runs(ck, case, rng, parallel):
         want = sorted(common.canon(standalone(c, r["assignment"], n_extra)) for r in spec)
         got = sorted(common.canon(e["data"]) for e in res["entries"])
         if got != want:
-            ck.violation(f"C06:run-differs-from-standalone:{'dask' if parallel else 'seq'}",
-                         f"observation step '{label}': the runs' data are not the data of the standalone exposures "
-                         f"(first differing: {next((g for g, w in zip(got, want) if g != w), None)})",
-                         {"case": c, "parallel": parallel, "step": label, "got": got[:6], "want": want[:6]})
+            ck.violation(f"C06:run-differs-from-standalone:{tag}" + (":reused-observation" if reuse else ""),
+                         f"observation step '{label}': the runs' data are not the data of the standalone exposures of the "
+                         f"configuration given to this call (first differing: {next((g for g, w in zip(got, want) if g != w), None)})",
+                         {"case": c, "base_case": case, "parallel": parallel, "step": label, "got": got[:6], "want": want[:6]})
             return
+
+
+def check_readout_sweep(ck, rng, parallel):
+    """sweeps over `observation.readout.*`: the Readout the user passed must keep its settings (only that clause is
+    judged: what such a sweep computes is outside C05's quantifier)"""
+    import dask
+    import pyx
+    import pyxel
+    from pyxel.exposure import Readout
+    from pyxel.observation import Observation, ParameterValues
+
+    key, values = rng.choice([("observation.readout.times", [2.0, 5.0]), ("observation.readout.times", [4.0, 6.5, 9.0]),
+                              ("observation.readout.non_destructive", [True, False]),
+                              ("observation.readout.non_destructive", [False, True])])
+    mode = rng.choice(["product", "sequential"])
+    nd = rng.random() < 0.5
+    case = {"key": key, "values": values, "mode": mode, "non_destructive": nd}
+
+    def make():
+        ro = Readout(times=[1.0, 2.0, 3.0], start_time=0.0, non_destructive=nd)
+        obs = Observation(parameters=[ParameterValues(key="pipeline.photon_collection.p.arguments.a", values=[10, 20]),
+                                      ParameterValues(key=key, values=list(values))],
+                          readout=ro, mode=mode, with_dask=parallel)
+        return ro, obs
+
+    ro0, obs0 = make()
+    before = snapshot(user_readout=ro0, **mode_settings(obs0))
+    ro, obs = make()
+    det = pyx.make_detector("CCD", 3, 4)
+    pipe = pyx.make_pipeline({"photon_collection": [{"name": "p", "func": "obsprobes.stamp", "arguments": {"slot": 0, "a": 1}}]})
+    tmp = tempfile.mkdtemp(prefix="verif-c06-ro-")
+    cwd = os.getcwd()
+    outcome = "ok"
+    try:
+        os.chdir(tmp)
+        try:
+            with dask.config.set(scheduler="synchronous"):
+                dt = pyxel.run_mode(mode=obs, detector=det, pipeline=pipe, with_inherited_coords=True)
+                c05.find_bucket(dt)["pixel"].compute()
+        except common.InfraError:
+            raise
+        except Exception as e:  # noqa: BLE001
+            outcome = common.err_kind(e)
+    finally:
+        os.chdir(cwd)
+        shutil.rmtree(tmp, ignore_errors=True)
+    ck.case({"readout_sweep": case, "parallel": parallel}, nontrivial=True, stream="readout-sweep")
+    ck.count(f"readout-sweep:{key.split('.')[-1]}:{'dask' if parallel else 'seq'}:{outcome}")
+    after = snapshot(user_readout=ro, **mode_settings(obs))
+    if after != before or obs.readout is not ro:
+        changed = [k for k in before if before[k] != after.get(k)]
+        ck.violation(f"C06:readout-changed-by-sweep:{'dask' if parallel else 'seq'}",
+                     f"after an observation sweeping {key} the Readout / Observation the user passed changed: {changed}",
+                     {"readout_sweep": case, "parallel": parallel, "changed": changed})
 
 
 def check_failing(ck, case, rng, parallel):
@@ -508,8 +632,13 @@ def check_calibration(ck, rng):
             result_fit_range=[0, rows, 0, cols], target_fit_range=[0, rows, 0, cols], pygmo_seed=rng.randrange(1, 9999),
             num_islands=rng.choice([1, 2]), num_evolutions=1)
         obsprobes.reset()
+        cal_before = snapshot(**mode_settings(cal))
         pyxel.run_mode(cal, det, pipe)
         ck.case({"calibration": "run_mode"}, nontrivial=True, stream="calibration")
+        cal_after = snapshot(**mode_settings(cal))
+        if cal_after != cal_before:
+            ck.violation("C06:mode-object-changed:calibration",
+                         f"after a calibration the Calibration object the user passed changed: {[k for k in cal_before if cal_before[k] != cal_after.get(k)]}", {})
         after = snapshot(detector=det, pipeline=pipe)
         if after != before:
             ck.violation("C06:caller-objects-changed:calibration",
@@ -526,9 +655,14 @@ def body(ck: common.Check):
     quick = ck.tier == "quick"
     batch, judges = [], []
     cases = []
-    for mode in ("product", "sequential", "custom"):
-        cases.append(gen_case(rng, mode=mode))
-    for _ in range(5 if quick else 180):
+    for mode in ("product", "sequential", "sequential", "custom"):
+        c = gen_case(rng, mode=mode)
+        for _ in range(30):  # sequential mode: the configured values of the *other* swept parameters matter
+            if mode != "sequential" or sum(p["enabled"] for p in c["params"]) >= 2:
+                break
+            c = gen_case(rng, mode=mode)
+        cases.append(c)
+    for _ in range(4 if quick else 180):
         cases.append(gen_case(rng))
     for case in cases:
         judges += check_sep(ck, case, batch)
@@ -545,14 +679,19 @@ def body(ck: common.Check):
         ck.count(f"memory_seen={case['memory_seen']}")
         for k in case["stateful"]:
             ck.count(f"stateful={k}")
+    for i in range(6 if quick else 40):
+        check_readout_sweep(ck, rng, parallel=bool(i % 2))
     for _ in range(1 if quick else 6):
         check_calibration(ck, rng)
     ck.rule = ("configurations from C05's generator (three modes, vector values, colliding names) with probes that count "
                "their uses in detector._memory (pre-populated by the caller in half of the cases), append to their own list "
                "argument and write into their own dict argument; (a) graphs of original and copy after create_new_processor / "
                "Processor.replace / deepcopy / update_processor (+ copy.copy as negative control), mutated through the copy; "
-               "(b) snapshots around three successive observations on the same caller objects (same, permuted / shortened value "
-               "lists), around a failing observation and around a calibration; (c) every run against an independently built "
+               "(b) snapshots of the caller's detector, pipeline AND running-mode object (Observation with its Readout, parameter "
+               "declarations, table, outputs; Calibration with readout, parameters, algorithm) around five successive calls — the "
+               "same Observation object reused on the same objects, on a reconfigured detector / pipeline, and again on the first "
+               "ones; permuted / shortened value lists — around a failing observation, around sweeps over observation.readout.* "
+               "keys, and around a calibration; (c) every run against an independently built "
                "standalone exposure; sequential path and dask path (4 threads)")
     ck.assumptions = [
         "PARTIAL: the theorem is conditional on Sep (copy and original share no object with mutable state); Sep is established "
@@ -571,6 +710,24 @@ def replay(path):
 
     rp = json.load(open(path))
     r = rp["replay"]
+    if "readout_sweep" in r:
+        ck = common.Check("C06", "quick")
+        rs = r["readout_sweep"]
+
+        class _R:  # replays the recorded choice
+            def __init__(self):
+                self.n = 0
+
+            def choice(self, seq):
+                self.n += 1
+                return (rs["key"], rs["values"]) if self.n == 1 else rs["mode"]
+
+            def random(self):
+                return 0.0 if rs["non_destructive"] else 1.0
+
+        check_readout_sweep(ck, _R(), r.get("parallel", False))
+        print("REPRODUCED: " + ck.violations[0]["what"] if ck.violations else "not reproduced (property holds on this input)")
+        return 1 if ck.violations else 0
     case = r.get("case")
     if case is None:
         print("replay without a generated case (calibration / correspondence):", rp["what"])
@@ -586,7 +743,7 @@ def replay(path):
         for idx, j in js:
             j(ans[idx])
     else:
-        check_runs(ck, case, random.Random(0), r.get("parallel", False))
+        check_runs(ck, r.get("base_case", case), random.Random(0), r.get("parallel", False))
         check_failing(ck, case, random.Random(0), r.get("parallel", False))
     print("REPRODUCED: " + ck.violations[0]["what"] if ck.violations else "not reproduced (property holds on this input)")
     return 1 if ck.violations else 0
